@@ -32,7 +32,7 @@ def atoms(part):
 
 
 def one_case(flavour, base, cwd, prefix, segs, trail):
-    user = aioftp.User()
+    user = aioftp.User(home_path="/hm/e")    # (where a login starts has no say in how a path resolves)
     user.base_path = base
     cwdp = pathlib.PurePosixPath("/" + "/".join(seg_str(s) for s in cwd))
     conn = aioftp.Connection(current_directory=cwdp, user=user)
